@@ -243,6 +243,8 @@ def corpus(mode, tier, rnd):
             if size == 64 and mode != 64: continue
             add(mn, size=size)
             K = 3 if not T else 6
+            if mn == "movs" and size >= 32 and not T:
+                K = 2          # two overlapping 4/8-byte copies are what the quick tier's per-query budget decides; the thorough tier uses 6
             if mn in ("movs", "stos", "lods"):
                 add(mn, size=size, rep="rep", max_count=K)
             else:
